@@ -7,7 +7,7 @@
    writers by parsing their output back. *)
 From Coq Require Import Init.Byte ZArith List Bool.
 Require Import Ojg.Base.Bytes Ojg.Base.Jv Ojg.Json.Writer Ojg.Json.WriterFacts.
-Require Import Ojg.Json.Machine Ojg.Json.Ref Ojg.Json.RefParse Ojg.Json.WRound Ojg.Json.WInt Ojg.Json.WFinal.
+Require Import Ojg.Json.Machine Ojg.Json.Ref Ojg.Json.RefParse Ojg.Json.WRound Ojg.Json.WInt Ojg.Json.WFinal Ojg.Json.WExpected.
 Import ListNotations.
 
 Theorem C04_stream_eq : forall o lim v, write_all o (Some lim) v = write_all o None v.
@@ -44,5 +44,12 @@ Example C04_round_trip_example :
   ref_parse true false (write_all o (Some 4) v) =
     Some [JObj [([x61], JArr [JBig [x31]; JStr [x78; x3c; x0a; xef; xbf; xbd]; JBool true])]].
 Proof. vm_compute. reflexivity. Qed.
+
+
+(* the tree of C04_round_trip is the expected tree of the correspondence runs (Writer.expected:
+   omitted members dropped, strings sanitized) with numbers as their text, whenever member names
+   stay pairwise distinct after sanitizing *)
+Theorem C04_toref_is_expected : forall o v, distinct_keys (expected o v) -> toref o v = numtext (expected o v).
+Proof. exact toref_expected. Qed.
 
 Print Assumptions C04_round_trip.
